@@ -81,8 +81,14 @@ type crashImage struct {
 // phoenix is a replica restarted from a crash image.
 type phoenix struct {
 	r     *Replica
-	img   *crashImage
+	img   *crashImage // nil for a replica that joined by state sync (statesync.go)
 	label string
+	// probe is the prefix of the reach probes ("chaincrash" or "statesync").
+	probe string
+	// from is the height at which the replica joined the lock-step set.
+	from int64
+	// viol builds a violation about this replica.
+	viol func(kind, detail string) *core.Violation
 }
 
 // chainCrash is the per-run state of the crash machinery.
@@ -428,7 +434,8 @@ func (s *Sim) startPhoenix(img *crashImage) (ph *phoenix, serr error, pv interfa
 	r := NewReplica(s.W, 100+s.cc.seq, img.orig.Node, img.orig.Cfg, img.dir, s.GenDoc)
 	r.stateDB, r.blockDB = img.stateDB, img.blockDB
 	r.extraApps = func() []cmtapi.Application { return probeAppsFor(s, r) }
-	ph = &phoenix{r: r, img: img, label: fmt.Sprintf("r%d@%d", img.orig.Idx, img.height)}
+	ph = &phoenix{r: r, img: img, label: fmt.Sprintf("r%d@%d", img.orig.Idx, img.height), probe: "chaincrash", from: img.height}
+	ph.viol = func(kind, detail string) *core.Violation { return crViol(kind, img, detail) }
 	for attempt := 0; attempt < 2; attempt++ {
 		pv, stack = core.Guard(func() { serr = r.Start() })
 		if pv == nil && serr != nil && attempt == 0 && strings.Contains(serr.Error(), "Create a new file") {
@@ -657,16 +664,16 @@ func (s *Sim) phoenixAdvance(ph *phoenix, kind string) *core.Violation {
 				s.Aborted = "validator-election-precondition"
 				return nil
 			}
-			return fail(crViol("phoenix-replay-panic", ph.img, fmt.Sprintf("applying block %d panicked: %v\n%s", h, pv, trimStack(stack))))
+			return fail(ph.viol("phoenix-replay-panic", fmt.Sprintf("applying block %d panicked: %v\n%s", h, pv, trimStack(stack))))
 		}
 		if res.Err != nil {
-			return fail(crViol("phoenix-replay-error", ph.img, fmt.Sprintf("applying block %d (which the other replicas applied) failed: %v", h, res.Err)))
+			return fail(ph.viol("phoenix-replay-error", fmt.Sprintf("applying block %d (which the other replicas applied) failed: %v", h, res.Err)))
 		}
 		if d := CompareResults(s.Results[h], res); d != "" {
-			return fail(crViol(kind, ph.img, fmt.Sprintf("block %d: the restarted node disagrees with the other replicas: %s", h, d)))
+			return fail(ph.viol(kind, fmt.Sprintf("block %d: the restarted node disagrees with the other replicas: %s", h, d)))
 		}
-		s.St.Inc("probe.chaincrash.phoenix_block_applied")
-		if h == ph.img.height {
+		s.St.Inc("probe." + ph.probe + ".phoenix_block_applied")
+		if ph.img != nil && h == ph.img.height {
 			s.St.Inc("probe.chaincrash.interrupted_block_repeated_by_harness")
 		}
 	}
@@ -684,18 +691,18 @@ func (s *Sim) phoenixAdvance(ph *phoenix, kind string) *core.Violation {
 				after = ndb.GetEarliestVersion()
 			})
 			if pv != nil {
-				return fail(crViol("phoenix-prune-panic", ph.img, fmt.Sprintf("the pruner panicked at height %d: %v\n%s", latest, pv, trimStack(stack))))
+				return fail(ph.viol("phoenix-prune-panic", fmt.Sprintf("the pruner panicked at height %d: %v\n%s", latest, pv, trimStack(stack))))
 			}
 			if perr != nil {
-				return fail(crViol("phoenix-prune-failed", ph.img, fmt.Sprintf("the pruner fails at height %d (earliest version %d): %v", latest, before, perr)))
+				return fail(ph.viol("phoenix-prune-failed", fmt.Sprintf("the pruner fails at height %d (earliest version %d): %v", latest, before, perr)))
 			}
 			if latest >= r.Cfg.PruneKeep {
 				if want := latest - r.Cfg.PruneKeep; before <= want && after != want && want >= uint64(s.W.Doc.Height) {
-					return fail(crViol("phoenix-prune-incomplete", ph.img, fmt.Sprintf("after pruning at height %d keeping %d the earliest version is %d (was %d), expected %d", latest, r.Cfg.PruneKeep, after, before, want)))
+					return fail(ph.viol("phoenix-prune-incomplete", fmt.Sprintf("after pruning at height %d keeping %d the earliest version is %d (was %d), expected %d", latest, r.Cfg.PruneKeep, after, before, want)))
 				}
 			}
 			if after > before {
-				s.St.Inc("probe.chaincrash.phoenix_pruned")
+				s.St.Inc("probe." + ph.probe + ".phoenix_pruned")
 			}
 		}
 	}
@@ -715,7 +722,7 @@ func (s *Sim) dropPhoenix(ph *phoenix) {
 
 func (s *Sim) retirePhoenix(ph *phoenix) {
 	core.Guard(func() { ph.r.Stop() })
-	_ = os.RemoveAll(ph.img.dir)
+	_ = os.RemoveAll(ph.r.Dir)
 }
 
 // stopPhoenixes stops all phoenixes (end of run) and removes unused crash images.
@@ -735,15 +742,15 @@ type crashOracle struct{ BaseOracle }
 
 func (crashOracle) Finish(s *Sim) (*core.Violation, bool) {
 	if n := len(s.cc.phoenixes); n > 0 {
-		s.St.Add("probe.chaincrash.phoenix_in_lockstep_at_end", int64(n))
+		s.St.Add("probe.phoenix_in_lockstep_at_end", int64(n))
 		for _, ph := range s.cc.phoenixes {
 			if ph.r.State.LastBlockHeight != s.Height {
 				core.Harnessf("chaincrash: phoenix %s is at height %d, chain at %d", ph.label, ph.r.State.LastBlockHeight, s.Height)
 			}
-			s.St.Add("probe.chaincrash.lockstep_blocks", s.Height-ph.img.height)
+			s.St.Add("probe."+ph.probe+".lockstep_blocks", s.Height-ph.from)
 		}
 	}
-	return nil, s.cc.checked > 0
+	return nil, s.cc.checked > 0 || s.ss.crashChecked > 0
 }
 
 func init() {
